@@ -198,9 +198,28 @@ class Ctx:
             ob = Obligation(label, st, path, "closed-evaluation", 0.0,
                             self._model_inputs(None) if not cond else None, None)
             if not cond:
-                # need a model of the path condition for the replay
-                if self._check() == z3.sat:
+                # need a model of the path condition for the replay -- and the path must be feasible at all: a branch is entered
+                # when its feasibility check ran out of time, so a closed `False` on such a path is a refutation only if the
+                # solver can produce an input that reaches it
+                r = self._check()
+                if r == z3.unknown:
+                    s3 = z3.Solver()
+                    s3.set("timeout", self.timeout_ms * 6)
+                    s3.add(self.solver.assertions())
+                    s3.add(self.deferred)
+                    r = s3.check()
+                    self.solver_calls += 1
+                    if r == z3.sat:
+                        ob.model = self._model_inputs(s3.model())
+                elif r == z3.sat:
                     ob.model = self._model_inputs(self.solver.model())
+                if r == z3.unsat:
+                    raise PathEnd("infeasible path (entered because its feasibility check timed out)")
+                if r != z3.sat:
+                    ob.status, ob.model = "unknown", None
+                    ob.reason = "a clause evaluated to False on a path whose feasibility no back end decided"
+                    self.obligations.append(ob)
+                    return "unknown"
             self.obligations.append(ob)
             return st
         cond = z3.simplify(cond)
